@@ -202,7 +202,7 @@ theorem wireGet_wireSet_ne (w) {c d : ConnId} (t) (h : d ≠ c) : wireGet (wireS
 syntax "tstep_cases " ident ident : tactic
 macro_rules
   | `(tactic| tstep_cases $th $h) => `(tactic|
-    (rcases $th:ident with ⟨prog, pc, resp, leaked, results, sent⟩
+    (rcases $th:ident with ⟨prog, pc, resp, leaked, results, sent, rclose⟩
      cases pc <;> simp only [tstep, tstepPc] at $h:ident <;> (repeat' split at $h:ident) <;>
        simp only [Option.some.injEq, Prod.mk.injEq, reduceCtorEq] at $h:ident <;>
        obtain ⟨h1, h2⟩ := $h:ident <;> subst h1 h2))
@@ -254,7 +254,7 @@ theorem tstep_open_nodup (h : tstep cfg tid sh th = some (sh', th')) (hn : sh.op
     first | exact hn | exact closeConn_openC_nodup _ _ hn | exact openConn_openC_nodup _ _ hn
 
 theorem Thread.owned_length_le_slots (th : Thread) : th.owned.length ≤ th.slots := by
-  rcases th with ⟨prog, pc, resp, leaked, results, sent⟩
+  rcases th with ⟨prog, pc, resp, leaked, results, sent, rclose⟩
   cases pc <;> simp [Thread.owned_eq, Thread.slots] <;> (try cases ‹Option ConnId›) <;> simp <;> omega
 
 theorem tstep_slots_block (h : tstep cfg tid sh th = some (sh', th')) (hb : cfg.block = true) :
@@ -495,7 +495,7 @@ theorem tstep_swapper_new (h : tstep cfg tid sh th = some (sh', th')) (h1 : sh.p
 theorem tstep_swapper_keep (h : tstep cfg tid sh th = some (sh', th')) (hp : progOK th)
     (hs : swapper th) : swapper th' := by
   rcases hs with hs | ⟨x, hs⟩ | ⟨r, hs⟩
-  · rcases th with ⟨prog, pc, resp, leaked, results, sent⟩
+  · rcases th with ⟨prog, pc, resp, leaked, results, sent, rclose⟩
     simp only at hs; subst hs
     obtain ⟨op, rest, hprog, hk⟩ := hp 2 rfl
     rw [Op.kind_eq_two] at hk
@@ -504,7 +504,7 @@ theorem tstep_swapper_keep (h : tstep cfg tid sh th = some (sh', th')) (hp : pro
     split at h <;> simp only [Option.some.injEq, Prod.mk.injEq] at h <;> obtain ⟨-, rfl⟩ := h
     · exact Or.inr (Or.inl ⟨_, rfl⟩)
     · exact Or.inr (Or.inr ⟨.ok, by simp [finish]⟩)
-  · rcases th with ⟨prog, pc, resp, leaked, results, sent⟩
+  · rcases th with ⟨prog, pc, resp, leaked, results, sent, rclose⟩
     simp only at hs; subst hs
     simp only [tstep, tstepPc, Option.some.injEq, Prod.mk.injEq] at h
     obtain ⟨-, rfl⟩ := h
@@ -619,13 +619,13 @@ def Disc (th : Thread) : Prop :=
   (th.pc = .idle → disc th.resp.isSome th.prog = true) ∧
   (th.pc ≠ .idle → th.resp = none ∧ ∃ op rest, th.prog = op :: rest ∧ disc th.pc.stream rest = true)
 
-theorem finish_disc_iff {prog pc resp leaked results sent} {r : Res} {op : Op} :
-    Disc (finish ⟨op :: prog, pc, resp, leaked, results, sent⟩ r) ↔
+theorem finish_disc_iff {prog pc resp leaked results sent rclose} {r : Res} {op : Op} :
+    Disc (finish ⟨op :: prog, pc, resp, leaked, results, sent, rclose⟩ r) ↔
       leaked = [] ∧ disc resp.isSome prog = true := by
   simp [finish, Disc]
 
-theorem applyCont_disc_iff {prog pc leaked results sent} {k : Cont} {op : Op} :
-    Disc (applyCont ⟨op :: prog, pc, none, leaked, results, sent⟩ k) ↔
+theorem applyCont_disc_iff {prog pc leaked results sent rclose} {k : Cont} {op : Op} :
+    Disc (applyCont ⟨op :: prog, pc, none, leaked, results, sent, rclose⟩ k) ↔
       leaked = [] ∧ disc k.stream prog = true := by
   cases k with
   | fin r => simp [applyCont, finish_disc_iff]
@@ -640,8 +640,8 @@ theorem applyCont_disc_iff {prog pc leaked results sent} {k : Cont} {op : Op} :
     · rintro ⟨h1, h2⟩
       exact ⟨h1, by simp, by simp, fun _ => ⟨trivial, op, prog, rfl, h2⟩⟩
 
-theorem disc_mk_iff {prog pc resp leaked results sent} {op : Op} (hpc : pc ≠ .idle) :
-    Disc ⟨op :: prog, pc, resp, leaked, results, sent⟩ ↔
+theorem disc_mk_iff {prog pc resp leaked results sent rclose} {op : Op} (hpc : pc ≠ .idle) :
+    Disc ⟨op :: prog, pc, resp, leaked, results, sent, rclose⟩ ↔
       leaked = [] ∧ pc.kind ≠ some 2 ∧ resp = none ∧ disc pc.stream prog = true := by
   simp only [Disc]
   constructor
@@ -672,12 +672,12 @@ theorem tstep_disc (h : tstep cfg tid sh th = some (sh', th')) (hp : sh.poolRef 
 theorem tstep_none (h : tstep cfg tid sh th = none) :
     th.done = true ∨
       (∃ f l st, th.pc = .getQ f l st) ∧ sh.queue = [] ∧ cfg.block = true ∧ cfg.timeout = false := by
-  rcases th with ⟨prog, pc, resp, leaked, results, sent⟩
+  rcases th with ⟨prog, pc, resp, leaked, results, sent, rclose⟩
   cases pc <;> simp only [tstep, tstepPc] at h <;> (repeat' split at h) <;>
     simp_all [Thread.done]
 
 theorem Disc.slots_done {th : Thread} (hd : Disc th) (h : th.done = true) : th.slots = 0 := by
-  rcases th with ⟨prog, pc, resp, leaked, results, sent⟩
+  rcases th with ⟨prog, pc, resp, leaked, results, sent, rclose⟩
   obtain ⟨hl, -, hidle, -⟩ := hd
   cases pc <;> cases prog <;> simp [Thread.done] at h
   simp at hl
@@ -741,8 +741,8 @@ theorem applyCont_cost (th : Thread) (k : Cont) :
 theorem failPut_cost (th : Thread) (i k r) : (failPut th i k r).cost = progCost th.prog.tail := by
   cases k <;> simp [failPut, finish_cost]
 
-theorem cost_mk (prog pc resp leaked results sent) :
-    Thread.cost ⟨prog, pc, resp, leaked, results, sent⟩ =
+theorem cost_mk (prog pc resp leaked results sent rclose) :
+    Thread.cost ⟨prog, pc, resp, leaked, results, sent, rclose⟩ =
       if pc = .idle then progCost prog else pc.cost + progCost prog.tail := rfl
 
 /-- every step of a thread strictly decreases `2 * qsize + cost` -/
@@ -772,25 +772,37 @@ theorem tstep_script (h : tstep cfg tid sh th = some (sh', th')) : th'.script = 
 
 /-! ## Results follow the script -/
 
-/-- the scripted outcome of the last attempt, as far as a continuation remembers it -/
-def Cont.last : Cont → Option Outcome
-  | .retry _ l _ => some l
-  | .fin .ok => some .ok
-  | .fin .failed => some .fail
+/-- does the scripted last attempt deliver a response (`ok`, or `okClose`: with `Connection: close`)? -/
+def Outcome.good : Outcome → Bool
+  | .ok => true
+  | .fail => false
+  | .okClose => true
+
+@[simp] theorem Outcome.good_ok : Outcome.ok.good = true := rfl
+@[simp] theorem Outcome.good_fail : Outcome.fail.good = false := rfl
+@[simp] theorem Outcome.good_okClose : Outcome.okClose.good = true := rfl
+theorem Outcome.good_eq_false {l : Outcome} : l.good = false ↔ l = .fail := by cases l <;> simp
+theorem Outcome.good_eq_true {l : Outcome} : l.good = true ↔ l ≠ .fail := by cases l <;> simp
+
+/-- whether the scripted last attempt succeeds, as far as a continuation remembers it -/
+def Cont.last : Cont → Option Bool
+  | .retry _ l _ => some l.good
+  | .fin .ok => some true
+  | .fin .failed => some false
   | _ => none
 
-/-- the scripted outcome of the last attempt of the request a program counter is in -/
-def Pc.last : Pc → Option Outcome
-  | .getCheck _ l _ | .getLoad _ l _ | .getQ _ l _ | .send _ _ l _ | .recv _ _ _ l _ => some l
+/-- whether the scripted last attempt of the request a program counter is in succeeds -/
+def Pc.last : Pc → Option Bool
+  | .getCheck _ l _ | .getLoad _ l _ | .getQ _ l _ | .send _ _ l _ | .recv _ _ _ l _ => some l.good
   | .putCheck _ k | .putLoad _ k | .putQ _ k | .fullClose _ k | .warn _ k | .discard _ k => k.last
   | _ => none
 
 @[simp] theorem Pc.last_idle : Pc.idle.last = none := rfl
-@[simp] theorem Pc.last_getCheck {f l s} : (Pc.getCheck f l s).last = some l := rfl
-@[simp] theorem Pc.last_getLoad {f l s} : (Pc.getLoad f l s).last = some l := rfl
-@[simp] theorem Pc.last_getQ {f l s} : (Pc.getQ f l s).last = some l := rfl
-@[simp] theorem Pc.last_send {c f l s} : (Pc.send c f l s).last = some l := rfl
-@[simp] theorem Pc.last_recv {c t f l s} : (Pc.recv c t f l s).last = some l := rfl
+@[simp] theorem Pc.last_getCheck {f l s} : (Pc.getCheck f l s).last = some l.good := rfl
+@[simp] theorem Pc.last_getLoad {f l s} : (Pc.getLoad f l s).last = some l.good := rfl
+@[simp] theorem Pc.last_getQ {f l s} : (Pc.getQ f l s).last = some l.good := rfl
+@[simp] theorem Pc.last_send {c f l s} : (Pc.send c f l s).last = some l.good := rfl
+@[simp] theorem Pc.last_recv {c t f l s} : (Pc.recv c t f l s).last = some l.good := rfl
 @[simp] theorem Pc.last_putCheck {i k} : (Pc.putCheck i k).last = k.last := rfl
 @[simp] theorem Pc.last_putLoad {i k} : (Pc.putLoad i k).last = k.last := rfl
 @[simp] theorem Pc.last_putQ {i k} : (Pc.putQ i k).last = k.last := rfl
@@ -800,15 +812,16 @@ def Pc.last : Pc → Option Outcome
 @[simp] theorem Pc.last_closeSwap : Pc.closeSwap.last = none := rfl
 @[simp] theorem Pc.last_drain : Pc.drain.last = none := rfl
 @[simp] theorem Pc.last_drainClose {x} : (Pc.drainClose x).last = none := rfl
-@[simp] theorem Cont.last_retry {f l s} : (Cont.retry f l s).last = some l := rfl
-@[simp] theorem Cont.last_fin_ok : (Cont.fin .ok).last = some .ok := rfl
-@[simp] theorem Cont.last_fin_failed : (Cont.fin .failed).last = some .fail := rfl
+@[simp] theorem Cont.last_retry {f l s} : (Cont.retry f l s).last = some l.good := rfl
+@[simp] theorem Cont.last_fin_ok : (Cont.fin .ok).last = some true := rfl
+@[simp] theorem Cont.last_fin_failed : (Cont.fin .failed).last = some false := rfl
 @[simp] theorem Cont.last_fin_wrongResp : (Cont.fin .wrongResp).last = none := rfl
 @[simp] theorem Cont.last_rel : Cont.rel.last = none := rfl
 
-/-- the outcome the program counter carries is the one scripted in the running `req` op -/
+/-- the outcome the program counter carries is the one scripted in the running `req` op (up to
+`ok` / `okClose`, which a stored result no longer distinguishes) -/
 def lastOK (th : Thread) : Prop :=
-  ∀ l, th.pc.last = some l → ∃ f st rest, th.prog = .req f l st :: rest
+  ∀ b, th.pc.last = some b → ∃ f l st rest, th.prog = .req f l st :: rest ∧ l.good = b
 
 @[simp] theorem finish_lastOK (th : Thread) (r : Res) : lastOK (finish th r) := by
   simp [lastOK]
@@ -817,7 +830,7 @@ def lastOK (th : Thread) : Prop :=
   simp [lastOK]
 
 theorem applyCont_lastOK {th : Thread} {k : Cont}
-    (h : ∀ l, k.last = some l → ∃ f st rest, th.prog = .req f l st :: rest) :
+    (h : ∀ b, k.last = some b → ∃ f l st rest, th.prog = .req f l st :: rest ∧ l.good = b) :
     lastOK (applyCont th k) := by
   cases k <;> simp [applyCont, lastOK] <;> simpa using h
 
@@ -827,7 +840,7 @@ theorem tstep_lastOK (h : tstep cfg tid sh th = some (sh', th')) (hl : lastOK th
     | exact finish_lastOK ..
     | exact failPut_lastOK ..
     | (apply applyCont_lastOK; simpa [lastOK] using hl)
-    | (simp [lastOK] at hl ⊢; try exact hl)
+    | (simp [lastOK] at hl ⊢; first | done | exact hl | exact ⟨_, _, ⟨rfl, rfl⟩, rfl⟩ | grind)
 
 theorem finish_results_new {th : Thread} {r : Res} {p} (hp : p ∈ (finish th r).results) :
     p ∈ th.results ∨ (p.2 = r ∧ ∃ rest, th.prog = p.1 :: rest) := by
@@ -849,7 +862,7 @@ def Scripted (cfg : Cfg) (sh : Shared) (p : Op × Res) : Prop :=
   (p.2 = .closedPool → sh.poolRef = none ∧ p.1.kind = 0) ∧
   (p.2 = .emptyPool → cfg.block = true ∧ cfg.timeout = true ∧ p.1.kind = 0) ∧
   (p.2 = .failed → ∃ f st, p.1 = .req f .fail st) ∧
-  (p.2 = .ok → ∀ f l st, p.1 = .req f l st → l = .ok)
+  (p.2 = .ok → ∀ f l st, p.1 = .req f l st → l ≠ .fail)
 
 theorem scripted_of_finish {th : Thread} {r : Res} {p} (hmem : p ∈ (finish th r).results)
     (hS : ∀ op rest, th.prog = op :: rest → Scripted cfg sh (op, r)) :
@@ -893,16 +906,16 @@ theorem tstep_results_scripted (h : tstep cfg tid sh th = some (sh', th')) (hr :
     | (refine scripted_of_finish hmem ?_
        intro op rest hprog
        simp [progOK, lastOK, recvOK, contOK, -Bool.forall_bool, -Bool.exists_bool] at hr hk hp hl hprog
-       simp [Scripted, -Bool.forall_bool, -Bool.exists_bool] <;> grind [Op.kind, Cont.last])
+       simp [Scripted, -Bool.forall_bool, -Bool.exists_bool] <;> grind [Op.kind, Cont.last, Outcome.good, Outcome.good_eq_false, Outcome.good_eq_true])
     | (refine scripted_of_applyCont hmem ?_
        intro op rest hprog
        simp [progOK, lastOK, recvOK, contOK, -Bool.forall_bool, -Bool.exists_bool] at hr hk hp hl hprog
        simp [Scripted, -Bool.forall_bool, -Bool.exists_bool]
-       cases ‹Cont› <;> simp_all [-Bool.forall_bool, -Bool.exists_bool] <;> grind [Op.kind, Cont.last])
+       cases ‹Cont› <;> simp_all [-Bool.forall_bool, -Bool.exists_bool] <;> grind [Op.kind, Cont.last, Outcome.good, Outcome.good_eq_false, Outcome.good_eq_true])
     | (refine Or.imp_left (fun h => by simpa using h) (scripted_of_finish hmem ?_)
        intro op rest hprog
        simp [progOK, lastOK, recvOK, contOK, -Bool.forall_bool, -Bool.exists_bool] at hr hk hp hl hprog
-       simp [Scripted, -Bool.forall_bool, -Bool.exists_bool] <;> grind [Op.kind, Cont.last])
+       simp [Scripted, -Bool.forall_bool, -Bool.exists_bool] <;> grind [Op.kind, Cont.last, Outcome.good, Outcome.good_eq_false, Outcome.good_eq_true])
 
 /-! ## Few disciplined threads never find the queue full (any `block`, with `close`) -/
 
@@ -960,13 +973,13 @@ def Disc2 (th : Thread) : Prop :=
     if th.pc.kind = some 2 then disc2 th.resp.isSome rest = true
     else th.resp = none ∧ disc2 th.pc.stream rest = true)
 
-theorem finish_disc2_iff {prog pc resp leaked results sent} {r : Res} {op : Op} :
-    Disc2 (finish ⟨op :: prog, pc, resp, leaked, results, sent⟩ r) ↔
+theorem finish_disc2_iff {prog pc resp leaked results sent rclose} {r : Res} {op : Op} :
+    Disc2 (finish ⟨op :: prog, pc, resp, leaked, results, sent, rclose⟩ r) ↔
       leaked = [] ∧ disc2 resp.isSome prog = true := by
   simp [finish, Disc2]
 
-theorem disc2_mk_iff {prog pc resp leaked results sent} {op : Op} (hpc : pc ≠ .idle) :
-    Disc2 ⟨op :: prog, pc, resp, leaked, results, sent⟩ ↔
+theorem disc2_mk_iff {prog pc resp leaked results sent rclose} {op : Op} (hpc : pc ≠ .idle) :
+    Disc2 ⟨op :: prog, pc, resp, leaked, results, sent, rclose⟩ ↔
       leaked = [] ∧ if pc.kind = some 2 then disc2 resp.isSome prog = true
         else resp = none ∧ disc2 pc.stream prog = true := by
   simp only [Disc2]
@@ -978,8 +991,8 @@ theorem disc2_mk_iff {prog pc resp leaked results sent} {op : Op} (hpc : pc ≠ 
   · rintro ⟨h1, h2⟩
     exact ⟨h1, fun h => absurd h hpc, fun _ => ⟨op, prog, rfl, h2⟩⟩
 
-theorem applyCont_disc2_iff {prog pc leaked results sent} {k : Cont} {op : Op} :
-    Disc2 (applyCont ⟨op :: prog, pc, none, leaked, results, sent⟩ k) ↔
+theorem applyCont_disc2_iff {prog pc leaked results sent rclose} {k : Cont} {op : Op} :
+    Disc2 (applyCont ⟨op :: prog, pc, none, leaked, results, sent, rclose⟩ k) ↔
       leaked = [] ∧ disc2 k.stream prog = true := by
   cases k with
   | fin r => simp [applyCont, finish_disc2_iff]
@@ -1001,7 +1014,7 @@ theorem tstep_disc2 (h : tstep cfg tid sh th = some (sh', th'))
     | skip
 
 theorem Disc2.slots2_le {th : Thread} (hd : Disc2 th) : th.slots2 ≤ 1 := by
-  rcases th with ⟨prog, pc, resp, leaked, results, sent⟩
+  rcases th with ⟨prog, pc, resp, leaked, results, sent, rclose⟩
   obtain ⟨hl, -, hrun⟩ := hd
   simp at hl hrun
   subst hl
